@@ -5,14 +5,16 @@ sys.path.insert(0, os.path.join(os.path.dirname(os.path.dirname(os.path.abspath(
 import vlib
 gen, seed, count = sys.argv[1], int(sys.argv[2]), int(sys.argv[3])
 profile = sys.argv[4] if len(sys.argv) > 4 else "debug"
+module = os.environ.get("MODULE", "Port.CasesMix")
 vlib.cargo_build(profile, ["port"])
 rc, out = vlib.run_bin(profile, "port", ["--gen", gen, "--seed", seed, "--count", count])
 cases = vlib.parse_case_lines(out)
 print("cases", len(cases), "rc", rc)
 if rc != 0: print(out[-2000:])
-mm, bad, err = vlib.eval_cases("DBG", "Port.CasesMix", cases, shard=40, prelude="Local Open Scope uint63_scope.")
+mm, bad, err = vlib.eval_cases("DBG", module, cases, shard=40, prelude="Local Open Scope uint63_scope.")
 if err: print(err); sys.exit(1)
 print("mismatches:", [c[0] for c in mm])
+print("oracle rejects:", [(c[0], kf) for c, kf in bad])
 for c in mm[:int(os.environ.get("SHOW", "1"))]:
     text = """From SV Require Import Port.PortCases.
 Local Open Scope uint63_scope.
